@@ -1,6 +1,10 @@
-(* dispatch for C02: the byte-layer ops of CodecRun plus (7 pose) -> spec_encode *)
+(* dispatch for C02: the byte-layer ops of CodecRun plus
+   (7 pose) -> spec_encode
+   (8 pose) -> the reader direction on an arbitrary content: (1 coherent? spec-bytes read-result rewrite-result) or (0 0)
+               when the content is not encodable; read = Pose.read of the spec bytes with an empty memo,
+               rewrite = Pose.write of the pose just read *)
 From Coq Require Import ZArith NArith List Bool.
-Require Import ListN Result Tree Bytes Prog Codec CodecTree PoseRead CodecRun C02_SpecV02.
+Require Import ListN Result Tree Bytes Prog Codec CodecTree PoseRead CodecRun C02_SpecV02 C02_Content.
 Import ListNotations.
 Definition t_component (t : tree) : component :=
   {| c_name := t_ns (t_nth 0 t); c_format := t_ns (t_nth 1 t); c_points := map t_ns (t_list (t_nth 2 t));
@@ -13,7 +17,16 @@ Definition t_pose (t : tree) : pose :=
                     h_comps := map t_component (t_list (t_nth 2 h)) |};
      p_body := {| b_fps := t_n (t_nth 0 b); b_shape := t_ns (t_nth 1 b); b_data := t_ns (t_nth 2 b);
                   b_conf := t_ns (t_nth 3 b); b_mask := t_bools (t_nth 4 b) |} |}.
+Definition run_reader_direction (c : pose) : tree :=
+  match spec_encode c with
+  | Some sb =>
+      let r := fst (read_bytes no_legacy None sb no_args) in
+      Nd [L 1; of_bool (coherent c); of_ns sb; of_result of_pose r;
+          of_result of_ns (rbind r (fun q => write_pose (wpose_of_read q)))]
+  | None => Nd [L 0; L 0]
+  end.
 Definition dispatch_c02 (t : tree) : tree :=
   if (t_z (t_nth 0 t) =? 7)%Z then
     match spec_encode (t_pose (t_nth 1 t)) with Some b => Nd [L 1; of_ns b] | None => Nd [L 0; L 0] end
+  else if (t_z (t_nth 0 t) =? 8)%Z then run_reader_direction (t_pose (t_nth 1 t))
   else dispatch_with no_legacy t.
